@@ -19,6 +19,18 @@ static mpscr_fifo_t* rq;
 static int last_seq[MAXP], popped_cnt, pushed_done[MAXP], pushed_begun[MAXP];
 static unsigned char got[MAXP][MAXOPS + 1];
 
+/* popped nodes are handed back to the producers and pushed again with whatever their fields hold
+ * (a node returned by pop still points to its old successor) */
+static void* recycle[64];
+static int nrecycle, recycle_on;
+static NS void* node_get(size_t sz) {
+  if (recycle_on && nrecycle) return recycle[--nrecycle];
+  return malloc(sz);
+}
+static NS void node_put(void* n) {
+  if (recycle_on && nrecycle < 64) recycle[nrecycle++] = n;
+  else free(n);
+}
 #define MKV(p, q) ((long)(((p) + 1) << 8 | ((q) + 1)))
 static NS int g_inv(int t, int op, long arg) {
   if (op == OP_PUSH) pushed_begun[(arg >> 8) - 1]++;
@@ -58,11 +70,11 @@ static void do_push(int p, int q) {
   long v = MKV(p, q);
   int h = g_inv(p, OP_PUSH, v);
   if (kind == Q_MPSC) {
-    mpsc_fifo_node_t* n = malloc(sizeof *n);
+    mpsc_fifo_node_t* n = node_get(sizeof *n);
     n->data = (void*)v;
     mpsc_fifo_push(&mq, n);
   } else {
-    spsc_node_t* n = malloc(sizeof *n);
+    spsc_node_t* n = node_get(sizeof *n);
     n->data = (void*)v;
     if (kind == Q_SPSC) spsc_fifo_push(&sq, n);
     else mpscr_fifo_push(rq, p, n);
@@ -79,13 +91,13 @@ static long do_pop(int t) {
     mpsc_fifo_node_t* n = mpsc_fifo_trypop(&mq);
     if (n) {
       v = (long)n->data;
-      free(n);
+      node_put(n);
     }
   } else {
     spsc_node_t* n = kind == Q_SPSC ? spsc_fifo_trypop(&sq) : mpscr_fifo_trypop(rq);
     if (n) {
       v = (long)n->data;
-      free(n);
+      node_put(n);
     }
   }
   if (kind == Q_MPSCR) g_relaxed_pop(v, cb, infl || g_inflight());
@@ -117,8 +129,9 @@ void h_run(void) {
   }
   cons_pops = wl_int(1, total + 2);
   yield_mask = wl_int(0, 7);
+  recycle_on = wl_pct(60);
   static const char* const kn[] = {"mpsc", "spsc", "mpsc-relaxed"};
-  sim_describe("%s producers=%d pushes=%d concurrent_pops=%d preempt=1/%d", kn[kind], nprod, total, cons_pops, c.preempt_inv);
+  sim_describe("%s producers=%d pushes=%d concurrent_pops=%d node_recycling=%d preempt=1/%d", kn[kind], nprod, total, cons_pops, recycle_on, c.preempt_inv);
   sim_nontrivial();
   hist_reset(M_FIFO, 0);
   if (kind == Q_MPSC) mpsc_fifo_init(&mq);
